@@ -2,6 +2,7 @@ package nbt
 
 import (
 	"bytes"
+	"errors"
 	"math"
 	"strconv"
 	"strings"
@@ -59,6 +60,9 @@ func writeValue(e *Encoder, d *decodeState, ifWriteTag bool, tagName string) err
 func writeLiteralPayload(e *Encoder, v any) (err error) {
 	switch v := v.(type) {
 	case string:
+		if len(v) > math.MaxInt16 {
+			return errors.New("nbt: string is too long for a TAG_String")
+		}
 		err = writeInt16(e.w, int16(len(v)))
 		if err != nil {
 			return
@@ -115,6 +119,9 @@ func writeCompoundPayload(e *Encoder, d *decodeState) error {
 		}
 		if d.opcode != scanCompoundTagName {
 			panic(phasePanicMsg)
+		}
+		if len(tagName) > math.MaxInt16 {
+			return errors.New("nbt: compound key is too long for a tag name")
 		}
 
 		if err := writeValue(e, d, true, tagName); err != nil {
